@@ -704,3 +704,41 @@ def main(ctx):
         return [r, np.array(repr(r.dtype.descr if r.dtype.names else r.dtype.str))]
 
     call_sequences(ctx, "call-sequences", seq_pool, SEQ_CALLS, seq_run, lambda: [nu, ru], depth=ctx.pick(2, 3), nodedup_depth=3)
+
+    # ------------------------------------------------------------ error path: read-only arrays, in place
+    # an in-place conversion of an array that cannot be written must either succeed without touching it (nothing to
+    # swap) or raise AND leave the array exactly as it was (declared order and bytes): a half-done in-place
+    # conversion would make every later read of the caller's array wrong
+    def one_ro(case, rec):
+        func, kind, order, keep = case
+        if kind == "plain":
+            a = np.array([1, 2, 70000], dtype=order + "i4")
+        elif kind == "f8":
+            a = np.array([[1.5, -2.0], [3.25, 4.0]], dtype=order + "f8")
+        else:
+            a = np.zeros(3, dtype=[("x", order + "f8"), ("s", "S3"), ("v", order + "i2", (2,))])
+            a["x"] = [1.5, -2.0, 3.25]
+            a["s"] = [b"a", b"", b"abc"]
+            a["v"] = [[1, 2], [3, 4], [5, 6]]
+        frozen = np.frombuffer(a.tobytes(), dtype=a.dtype).reshape(a.shape)      # not writeable
+        before = (frozen.dtype.descr if frozen.dtype.names else frozen.dtype.str, frozen.tobytes(), frozen.flags.writeable)
+        try:
+            r = fn_of[func](frozen, inplace=True, keep_dtype=keep)
+            raised = None
+        except Exception as e:
+            r, raised = None, "%s: %s" % (type(e).__name__, str(e)[:80])
+        after = (frozen.dtype.descr if frozen.dtype.names else frozen.dtype.str, frozen.tobytes(), frozen.flags.writeable)
+        if raised is not None:
+            if after != before:
+                return rec.fail(case, "%s(inplace=True) on a read-only array raised %s and left the array changed: declared %r -> %r, "
+                                      "bytes %s" % (func, raised, before[0], after[0], "changed" if before[1] != after[1] else "unchanged"))
+            return rec.ok(case, outcome="raised-and-untouched", nontrivial=True)
+        # no error: then nothing had to be written, and the values must be those of the input
+        if after[1] != before[1]:
+            return rec.fail(case, "%s(inplace=True) changed the bytes of a read-only array without an error" % func)
+        if repr(a.tolist()) != repr(np.asarray(r).tolist()):
+            return rec.fail(case, "%s(inplace=True) on a read-only array returned other values without an error: %r" % (func, np.asarray(r).tolist()))
+        rec.ok(case, outcome="no-write-needed", nontrivial=False)
+
+    rounits = [(f, k, o, keep) for f in FUNCS for k in ("plain", "f8", "struct") for o in ("<", ">") for keep in (False, True)]
+    ctx.lattice("read-only-in-place", rounits, one_ro, bounds=dict(functions=list(FUNCS), kinds=["plain i4", "2-d f8", "structured"]))
